@@ -25,6 +25,78 @@ theorem ChanStep.of_ready {par : Nat} {c : Chan} {st : Nat} (h : c.ready ≤ st)
     ChanStep par c { c with ready := st } :=
   ⟨h, rfl, rfl, rfl, rfl, rfl, rfl, fun _ h => h, fun h s hs => by simp [h] at hs⟩
 
+/-- `_addBufferedAmount` without the application handler -/
+theorem fwd_addBufferedCore (i : Nat) (amount : Int) : Pres fwdSpec (addBufferedCore i amount) := by
+  apply Pres.intro; intro s hI
+  unfold addBufferedCore
+  wp_head
+  cases hc : s.1.chans[i]? with
+  | none => simp only; exact fun _ => ⟨hI, FwdRel.refl s⟩
+  | some c =>
+    simp only
+    have h3 : c.ready ≤ 3 := hI.1 c (List.mem_of_getElem? hc)
+    have hst : ChanStep (parity s.1) c { c with buffered := c.buffered + amount } :=
+      ⟨Nat.le_refl _, rfl, rfl, rfl, rfl, rfl, rfl, fun _ h => h, fun h s hs => by simp [h] at hs⟩
+    split
+    · wp_head
+      intro _
+      refine fwd_set hI hc rfl rfl hI.2 (l2 := [.evLow i]) rfl hst h3 ?_ ?_
+      · ev_self
+      · ev_other
+    · wp_head
+      intro _
+      refine fwd_set hI hc rfl rfl hI.2 (l2 := []) (by simp) hst h3 ?_ ?_
+      · ev_self
+      · ev_other
+macro_rules | `(tactic| pres_leaf) => `(tactic| exact fwd_addBufferedCore _ _)
+
+theorem fwd_addBuffered0 (i : Nat) (amount : Int) : Pres fwdSpec (addBuffered0 i amount) := by
+  unfold addBuffered0; pres
+macro_rules | `(tactic| pres_leaf) => `(tactic| exact fwd_addBuffered0 _ _)
+
+/-- changing only the bookkeeping of ids (`dataChannels`, `dcQueue`, …) -/
+theorem fwd_modE_same (f : Ep → Ep) (h1 : ∀ e, (f e).chans = e.chans) (h2 : ∀ e, (f e).isServer = e.isServer)
+    (h3 : ∀ e, (f e).dcId = e.dcId) : Pres fwdSpec (modE f) := by
+  apply Pres.intro; intro s hI
+  wp_head
+  intro _
+  exact fwd_same hI (l2 := []) (h1 _) (h2 _) (by rw [h3]; exact hI.2) (by simp) (by simp)
+macro_rules | `(tactic| pres_leaf) => `(tactic| exact fwd_modE_same _ (fun _ => rfl) (fun _ => rfl) (fun _ => rfl))
+
+/-- `_data_channel_send` (from `send()` or from an application handler) -/
+theorem fwd_dcSend (i : Nat) (isStr : Bool) (data : Bytes) : Pres fwdSpec (dcSend i isStr data) := by
+  unfold dcSend; pres
+macro_rules | `(tactic| pres_leaf) => `(tactic| exact fwd_dcSend _ _ _)
+
+/-- an application handler that re-enters `send()`: the reaction is consumed, the channel objects only change
+by `bufferedAmount` -/
+theorem fwd_react (k i : Nat) : Pres fwdSpec (react k i) := by
+  apply Pres.intro; intro s hI
+  unfold react
+  wp_head
+  split
+  · wp_head; exact fun _ => ⟨hI, FwdRel.refl s⟩
+  · rename_i r hr
+    wp_head
+    have h1 := fwd_same hI (e' := { s.1 with reactions := s.1.reactions.erase r }) (l' := s.2) (l2 := [])
+      rfl rfl hI.2 (by simp) (by simp)
+    cases hc : s.1.chans[i]? with
+    | none => simp only; exact fun _ => h1
+    | some c =>
+      simp only
+      split
+      · wp_head
+        intro _
+        exact fwd_same hI (l2 := [.rexc i "InvalidStateError"]) rfl rfl hI.2 rfl (by simp [Out.isChanEv])
+      · exact WP.pres_after (S := fwdSpec) (fwd_dcSend _ _ _) h1.1 h1.2
+macro_rules | `(tactic| pres_leaf) => `(tactic| exact fwd_react _ _)
+
+/-- continue with a forward action after an explicit forward step -/
+theorem WP.after_fwd {α : Type} {x : M α} (hx : Pres fwdSpec x) {s : St} {e' : Ep} {l' : List Out}
+    (h : LifeInv e' ∧ FwdRel s (e', l')) : WP x (fun _ s' => LifeInv s'.1 ∧ FwdRel s s') (e', l') :=
+  WP.call hx h.1 (fun r s' h2 =>
+    ⟨(h2 (fun h => h.elim)).1, FwdRel.trans _ _ _ h.2 (h2 (fun h => h.elim)).2⟩)
+
 /-- `_setReadyState(st)` where the caller has checked that the channel is not already beyond `st` -/
 theorem wp_setReady {s : St} (hI : LifeInv s.1) (i st : Nat)
     (hpre : ∀ c, s.1.chans[i]? = some c → c.ready ≤ st) (h3 : st ≤ 3) :
@@ -41,11 +113,13 @@ theorem wp_setReady {s : St} (hI : LifeInv s.1) (i st : Nat)
       split
       · split
         · wp_simp
+          refine WP.after_fwd (fwd_react 0 i) ?_
           refine fwd_set hI hc rfl rfl hI.2 (l2 := [.evOpen i]) rfl (ChanStep.of_ready hle) h3 ?_ ?_
           · ev_self
           · ev_other
         · split
           · wp_simp
+            refine WP.after_fwd (fwd_react 1 i) ?_
             refine fwd_set hI hc rfl rfl hI.2 (l2 := [.evClose i]) rfl (ChanStep.of_ready hle) h3 ?_ ?_
             · ev_self
             · ev_other
@@ -68,37 +142,8 @@ theorem fwd_setReady3 (i : Nat) : Pres fwdSpec (setReady i 3) := by
 macro_rules | `(tactic| pres_leaf) => `(tactic| exact fwd_setReady3 _)
 
 theorem fwd_addBuffered (i : Nat) (amount : Int) : Pres fwdSpec (addBuffered i amount) := by
-  apply Pres.intro; intro s hI
-  unfold addBuffered
-  wp_head
-  cases hc : s.1.chans[i]? with
-  | none => simp only; exact fun _ => ⟨hI, FwdRel.refl s⟩
-  | some c =>
-    simp only
-    have h3 : c.ready ≤ 3 := hI.1 c (List.mem_of_getElem? hc)
-    have hst : ChanStep (parity s.1) c { c with buffered := c.buffered + amount } :=
-      ⟨Nat.le_refl _, rfl, rfl, rfl, rfl, rfl, rfl, fun _ h => h, fun h s hs => by simp [h] at hs⟩
-    split
-    · wp_head
-      intro _
-      refine fwd_set hI hc rfl rfl hI.2 (l2 := [.evLow i]) rfl hst h3 ?_ ?_
-      · ev_self
-      · ev_other
-    · wp_head
-      intro _
-      refine fwd_set hI hc rfl rfl hI.2 (l2 := []) (by simp) hst h3 ?_ ?_
-      · ev_self
-      · ev_other
+  unfold addBuffered; pres
 macro_rules | `(tactic| pres_leaf) => `(tactic| exact fwd_addBuffered _ _)
-
-/-- changing only the bookkeeping of ids (`dataChannels`, `dcQueue`, …) -/
-theorem fwd_modE_same (f : Ep → Ep) (h1 : ∀ e, (f e).chans = e.chans) (h2 : ∀ e, (f e).isServer = e.isServer)
-    (h3 : ∀ e, (f e).dcId = e.dcId) : Pres fwdSpec (modE f) := by
-  apply Pres.intro; intro s hI
-  wp_head
-  intro _
-  exact fwd_same hI (l2 := []) (h1 _) (h2 _) (by rw [h3]; exact hI.2) (by simp) (by simp)
-macro_rules | `(tactic| pres_leaf) => `(tactic| exact fwd_modE_same _ (fun _ => rfl) (fun _ => rfl) (fun _ => rfl))
 
 theorem fwd_dcClosed (sid : Nat) : Pres fwdSpec (dcClosed sid) := by
   unfold dcClosed; pres
